@@ -42,7 +42,7 @@ CONFIG = {
 def run(ctx):
     common.import_repo()
     taps.install()
-    budget = ctx.pick(80, 900)
+    budget = ctx.pick(80, 480)
     ledger_and_determinism(ctx, ctx.pick(160, 1600), budget * 0.55)
     frequencies(ctx, ctx.pick(48, 400), budget * 0.45)
 
